@@ -21,20 +21,21 @@ F_MEM = [dict(name='dbus_malloc/dbus_realloc/dbus_free', file='dbus/dbus-memory.
 UNITS = []
 
 
-def s_unit(fn_no, name, fns, contract, must, expect=20, npts=3, unwindset=(), heavy=False):
+def s_unit(fn_no, name, fns, contract, must, expect=20, npts=3, unwindset=(), heavy=False, extra_defines=(), variants=None, bound_note=None):
     """One function of dbus-string.c.  Cheap units: one P unit (every size) in the quick tier.  heavy=True (two strings / alignment):
     a size-capped B unit (<= 64 bytes) in the quick tier and the uncapped P unit in the thorough tier."""
-    variants = [(None, 'thorough', '', expect * 8), (64, 'quick', '.n64', expect)] if heavy else [(None, 'quick', '', expect)]
+    variants = variants or ([(None, 'thorough', '', expect * 8), (64, 'quick', '.n64', expect)] if heavy else [(None, 'quick', '', expect)])
     for n, tier, suffix, exp in variants:
         UNITS.append(dict(
-            name='C14.str.' + name + suffix, props=['C14'], kind='B' if n else 'P', route='stub', entry='harness',
+            name='C14.str.' + name + suffix, props=['C14'], kind='B' if (n or bound_note) else 'P', route='stub', entry='harness',
             tus=[dict(file=STR, include_as='VERIF_TU')], harness='harness/c14_str.c', extra_sources=['stubs/c14_mem.c', 'stubs/c14_memops.c'],
-            defines=['VERIF_FN=%d' % fn_no, 'VERIF_NPTS=%d' % npts] + (['VERIF_N=%d' % n] if n else []),
+            defines=['VERIF_FN=%d' % fn_no, 'VERIF_NPTS=%d' % npts] + (['VERIF_N=%d' % n] if n else []) + list(extra_defines),
             replace_calls={'fixup_alignment': 'verif_stub_fixup_alignment', 'memmove': 'verif_stub_memmove', 'memcpy': 'verif_stub_memcpy', 'memset': 'verif_stub_memset'},
             cbmc_flags=OOM, unwindset=list(unwindset), timeout=3000 if not n else 1200, expect_s=exp, tier=tier,
             must_have=list(must) + ([] if fn_no == 17 else ['STR_OK re-established']),
             bounds=({'string_bytes_before': n, 'bytes_added': n,
-                     'note': 'no loop is unwound (the functions are loop-free); only the buffer sizes are capped, for the quick tier; the thorough-tier unit of the same name without .n64 has no cap'} if n else None),
+                     'note': 'no loop is unwound (the functions are loop-free); only the buffer sizes are capped, for the quick tier; the thorough-tier unit of the same name without .n64 has no cap'} if n
+                    else (bound_note or None)),
             functions=[dict(name=f, file=STR, status='bounded' if n else 'enforced', contract=contract) for f in fns] + F_MEM,
             assumptions=[A_PRE, A_MEM, A_ALIGN, A_MEMOPS]))
 
@@ -52,7 +53,8 @@ s_unit(5, 'append_byte', ['_dbus_string_append_byte'], 'TRUE => old text + byte;
 s_unit(6, 'append_len', ['_dbus_string_append_len', 'append'], 'TRUE => old text followed by buffer[0..len) (ghost index); FALSE => unchanged; buffer untouched',
        ['_dbus_string_append_len: ' + FALSE_UNCH, 'appended bytes are the buffer'], npts=4)
 s_unit(8, 'append_cstr', ['_dbus_string_append', 'append'], 'TRUE => old text followed by the C string (<= 16 bytes); FALSE => unchanged',
-       ['_dbus_string_append: ' + FALSE_UNCH], unwindset=['harness.1:18', 'harness.2:18', 'strlen.0:18'])
+       ['_dbus_string_append: ' + FALSE_UNCH], unwindset=['harness.1:18', 'harness.2:18', 'strlen.0:18'],
+       bound_note={'c_string_bytes': 16, 'note': 'the DBusString is of any size; the appended C string has <= 16 bytes (strlen and the reference loop are completely unwound)'})
 s_unit(9, 'open_gap', ['open_gap'], 'TRUE => len += n, bytes before insert_at unchanged, bytes from insert_at on shifted up by n (ghost index); FALSE => unchanged',
        ['open_gap: ' + FALSE_UNCH, 'open_gap: TRUE => bytes from the insertion point on'])
 s_unit(10, 'insert_bytes', ['_dbus_string_insert_bytes', 'open_gap'], 'as open_gap + the n inserted bytes have the given value',
@@ -77,6 +79,15 @@ for no, w in ((19, 8), (20, 4), (21, 2)):
 s_unit(22, 'insert_alignment', ['_dbus_string_insert_alignment'], ALIGN_C + ' (gap 0)', ['_dbus_string_insert_alignment: ' + FALSE_UNCH], expect=60, npts=4, heavy=True)
 s_unit(23, 'align_length', ['_dbus_string_align_length', 'align_length_then_lengthen'], 'TRUE => len rounded up to the alignment with nul bytes appended, old bytes unchanged; FALSE => unchanged',
        ['_dbus_string_align_length: ' + FALSE_UNCH], expect=60, npts=4, heavy=True)
+REPL_C = ('TRUE => dest[replace_at..+replace_len) replaced by source[start..+len), bytes before kept, bytes behind shifted by len - replace_len; '
+          'FALSE => dest unchanged, also inside the segment; never fails when len <= replace_len; source untouched')
+for br, nm in ((1, 'grow'), (2, 'shrink'), (3, 'same')):
+    # only the growing branch allocates: it is in the quick tier (capped) and in the thorough tier (uncapped); the two branches that
+    # cannot fail are checked capped in the thorough tier (measured 4-6 min each at <= 64 bytes on a loaded machine)
+    s_unit(25, 'replace_len.' + nm, ['_dbus_string_replace_len', 'copy', 'delete'], REPL_C + ' [branch len %s replace_len]' % {1: '>', 2: '<', 3: '=='}[br],
+           ['_dbus_string_replace_len: FALSE => dest length and every byte unchanged', '_dbus_string_replace_len: TRUE => the replaced segment now reads', '_dbus_string_replace_len: the source is never modified'],
+           expect=300, npts=5, extra_defines=['VERIF_BRANCH=%d' % br],
+           variants=([(64, 'quick', '.n64', 300), (None, 'thorough', '', 2400)] if br == 1 else [(64, 'thorough', '.n64', 300)]))
 s_unit(24, 'alloc_space', ['_dbus_string_alloc_space', '_dbus_string_shorten'], 'both outcomes: len and bytes unchanged; TRUE => capacity for extra_bytes', ['_dbus_string_alloc_space: length and every byte unchanged'])
 
 # ---- dbus-list.c on lists <= 3, link pool = failing allocator (B) ----
@@ -121,3 +132,16 @@ l_unit(20, 'stack_contract', ['_dbus_list_append', '_dbus_list_pop_last', '_dbus
        'exactly the contract of stubs/list_as_stack.c: append pushes (or fails leaving the stack), pop_last returns the most recent datum / NULL when empty, *list == NULL iff empty, clear empties',
        ['stack contract: append pushes', 'stack contract: pop_last returns the most recently appended datum', 'stack contract: clear empties'],
        justification='stubs/list_as_stack.c (assumption "dbus-list behaves as a LIFO stack" of C16.sig.* / C01 signature units), for depth <= 3 (+1)')
+
+# ---- in-place edit of a marshalled string value: nothing is written unless the fallible replace succeeded ----
+for fn_no, nm, fn in ((1, 'set_string', 'set_string'), (2, 'set_basic_string', '_dbus_marshal_set_basic (STRING / OBJECT_PATH)')):
+    UNITS.append(dict(
+        name='C14.marshal.' + nm, props=['C14', 'C12'], kind='P', route='stub', entry='harness',
+        tus=[dict(file='dbus/dbus-marshal-basic.c', include_as='VERIF_TU')], harness='harness/c14_setstring.c', defines=['VERIF_FN=%d' % fn_no],
+        replace_calls={'_dbus_marshal_set_uint32': 'verif_stub_marshal_set_uint32'}, timeout=300, expect_s=5,
+        must_have=['set_string: FALSE => nothing written', 'set_string: the fallible replace runs exactly once and before anything is written', '_dbus_marshal_set_uint32: the string is written only after'],
+        functions=[dict(name=fn, file='dbus/dbus-marshal-basic.c', status='enforced', contract='replace_len once, first, with (whole new value, pos+4, old length); FALSE => nothing written; TRUE => length word and end positions as documented'),
+                   dict(name='_dbus_string_replace_len', file=STR, status='replaced', note='contract enforced by C14.str.replace_len.grow / .shrink / .same: FALSE => dest byte-for-byte unchanged'),
+                   dict(name='_dbus_marshal_set_uint32', file='dbus/dbus-marshal-basic.c', status='replaced', note='call log (its packing: C02 basics)'),
+                   dict(name='_dbus_string_init_const/_get_length/_get_const_data_len', file=STR, status='stub', note='constant string over the new value (length = strlen, ghost); pointer to the 4-byte length word')],
+        assumptions=['old and new string lengths below 2^28 (validated messages: < 128 MiB), pos 4-aligned (asserted by the code)']))
